@@ -530,14 +530,28 @@ class C10(Property):
             "prepeptides (leader/core/tail) incl. on CDS with MAKER-style locus tags long enough to be wrapped; "
             "order(...) locations on genes, CDS and misc features; each case runs the real GenBank text and results-JSON "
             "round trips and compares, besides the Lean views, an attribute-by-attribute dump (every slot of every "
-            "non-area feature, location operator included) of the original and both re-read records; non-trivial = at "
-            "least one area or annotated CDS; distinct by canonical input")
+            "non-area feature, location operator included) of the original and both re-read records, and the record's own "
+            "data (name, description, dbxrefs, annotations incl. references / taxonomy / keywords / comment, letter "
+            "annotations, translation table); origin-spanning and reverse-strand prepeptides; plus, outside records: "
+            "every leader/tail split of eight gene shapes on both strands through the real Prepeptide class, "
+            "_parse_format / gene function / sec_met texts (rendered with awkward values, damaged, noise) through the real "
+            "parsers, aSDomain / CDS_motif objects with every attribute through to_biopython / from_biopython incl. "
+            "damaged written features; non-trivial = at least one area or annotated CDS, a non-empty leader or tail, a "
+            "text that parses; distinct by canonical input")
     TRUSTED = ["Biopython GenBank writer/parser (text layer, line wrapping, header), orjson; SeqFeature / location classes",
                "CPython list.sort for fewer than 64 elements is modelled (initial run + binary insertion); the merge phase for "
                "longer feature lists is not (generated records stay below 64 features)",
-               "modelled, not verified: the class-specific qualifiers of CDS (gene_functions, sec_met, NRPS_PKS, translation), "
-               "genes, domains, motifs, modules, sources are opaque qualifier text to the model; prepeptides and T2PKS "
-               "protocluster qualifiers are not generated",
+               "inside record cases the class-specific qualifiers of CDS, genes, domains, motifs, modules, sources are opaque "
+               "qualifier text to the record model; modelled and proved separately (own driver ops on the real classes): "
+               "_parse_format, gene function annotations, sec_met domains, aSDomain / CDS_motif features, the prepeptide "
+               "location; executed only: PFAM_domain, aSModule, NRPS_PKS qualifier contents, CDS names / translation, "
+               "registered AntismashDomain subtypes, ExternalCDSMotif; T2PKS protocluster qualifiers are not generated",
+               "floating point numbers are kept as the text Python writes: float(str(x)) == x and float(f'{x:.2E}') being "
+               "the rounded value are CPython's; int(text) is modelled for canonical decimal text only",
+               "Python's re module: the matcher's search order for the expressions _parse_format builds is transcribed "
+               "(lazy group, greedy digit group, optional space, $ before a final newline) and compared with the real "
+               "matcher on every generated format / text; other regular expression features are not modelled; ASCII "
+               "white space only in str.split()",
                "constructor validation (feature type length, product syntax, overlapping exons) and CDS name/location "
                "uniqueness checks are not modelled; generated inputs are valid",
                "strandless locations are read back as forward from GenBank text: the spec identifies None and +1 on that path",
